@@ -5,6 +5,7 @@ import (
 	"fmt"
 	"sort"
 	"strings"
+	"sync/atomic"
 
 	u "github.com/utreexo/utreexo"
 	"vmc/ref"
@@ -352,7 +353,14 @@ func checkPartial(x *Exec, prop string, m *u.MapPollard, md *partModel, lastOp O
 	}
 	os := sortedKeys(obs)
 	name := fmt.Sprintf("MapPollard(partial,TR=%d)", m.TotalRows)
-	for _, set := range subsets(os, false) {
+	psets := subsets
+	if len(os) > 7 {
+		// large caches (medium family): singletons, neighbouring pairs, first+last, all
+		psets = func(items []int, _ bool) [][]int {
+			return (&HistFamily{Or: HistOracle{ProofSets: "tall"}}).proofSets(items)
+		}
+	}
+	for _, set := range psets(os, false) {
 		evals++
 		want := L.Proof(set)
 		got, err := x.Prove(name, m, ref.Hashes(set))
@@ -407,6 +415,127 @@ func (f *PartialFamily) Step(n *Node, op Op) StepResult {
 	return res
 }
 
+// partialMedium drives a partial forest through three-step histories on 11..17 leaves with
+// irregular remember and deletion patterns (the BFS stops at 4-6 leaves):
+// [add N remembering all | even slots | {0, N-1} | none][delete S, add k remembering all]
+// [delete / verify-remember / prune one leaf], S = every subset of size <= 2 plus every subset of the
+// window of slots 2..9; the full C09 oracle after every step.
+func partialMedium(c *Ctx) {
+	Ns := []int{12}
+	trs := []uint8{0, 63}
+	if c.Thorough() {
+		Ns = []int{11, 12, 13, 16, 17}
+		trs = []uint8{0, 3, 4, 63}
+	}
+	c.Cov.Bound["medium.N"] = fmt.Sprint(Ns)
+	type job struct {
+		tr   uint8
+		hist []Op
+	}
+	var jobs []job
+	for _, N := range Ns {
+		seen := map[string]bool{}
+		var sets [][]int
+		add := func(x []int) {
+			if len(x) > 0 && !seen[fmt.Sprint(x)] {
+				seen[fmt.Sprint(x)] = true
+				sets = append(sets, x)
+			}
+		}
+		for a := 0; a < N; a++ {
+			add([]int{a})
+			for b := a + 1; b < N; b++ {
+				add([]int{a, b})
+			}
+		}
+		for mask := 1; mask < 256; mask++ {
+			var x []int
+			for j := 0; j < 8; j++ {
+				if mask&(1<<uint(j)) != 0 {
+					x = append(x, 2+j)
+				}
+			}
+			add(x)
+		}
+		all := make([]int, N)
+		var evens []int
+		for i := range all {
+			all[i] = i
+			if i%2 == 0 {
+				evens = append(evens, i)
+			}
+		}
+		rchoices := [][]int{evens, {0, N - 1}}
+		if c.Thorough() {
+			rchoices = [][]int{all, evens, {0, N - 1}, {}}
+		}
+		for _, R := range rchoices {
+			isRem := map[int]bool{}
+			for _, r := range R {
+				isRem[r] = true
+			}
+			for _, S := range sets {
+				dead := map[int]bool{}
+				for _, d := range S {
+					dead[d] = true
+				}
+				for _, k := range []int{0, 1, 3} {
+					kr := make([]int, k)
+					for i := range kr {
+						kr[i] = i
+					}
+					base := []Op{{Kind: "block", Adds: N, Rem: R}, {Kind: "block", Dels: S, Adds: k, Rem: kr}}
+					for _, tr := range trs {
+						jobs = append(jobs, job{tr, base})
+						for x := 0; x < N+k; x += 2 {
+							if dead[x] {
+								continue
+							}
+							third := Op{Kind: "block", Dels: []int{x}, Rem: []int{}}
+							if x%4 == 2 {
+								third = Op{Kind: "verify", Set: []int{x}}
+							} else if (isRem[x] || x >= N) && x%3 == 0 {
+								third = Op{Kind: "prune", Set: []int{x}}
+							}
+							jobs = append(jobs, job{tr, append(append([]Op(nil), base...), third)})
+						}
+					}
+				}
+			}
+		}
+	}
+	var steps, evals int64
+	ok := parallelFor(c, len(jobs), func(i int) {
+		fam := &PartialFamily{Nmax: 64, TR: jobs[i].tr, Prop: "C09"}
+		n, _ := fam.Root()
+		// only the last two steps are new with respect to the shared prefix; Step re-checks each
+		for _, op := range jobs[i].hist {
+			r := fam.Step(n, op)
+			atomic.AddInt64(&steps, 1)
+			atomic.AddInt64(&evals, r.Evals)
+			c.Col.Add(r.Viol...)
+			for _, nt := range r.Notes {
+				c.Col.Note(nt)
+			}
+			if r.Next == nil {
+				break
+			}
+			n = r.Next
+		}
+		if i%9973 == 0 {
+			c.Cov.Sample(fmt.Sprintf("medium TR=%d: %s", jobs[i].tr, histStr(jobs[i].hist)))
+		}
+	})
+	if !ok {
+		c.Cov.NotExhaustive("deadline reached in the medium partial-forest family")
+	}
+	c.Cov.AddStates(int64(len(jobs)))
+	c.Cov.AddTransitions(steps)
+	c.Cov.AddEvals(evals)
+	c.Cov.AddNontrivial(int64(len(jobs)))
+	c.Cov.SetExtra("medium_family_histories", len(jobs))
+}
+
 func init() {
 	Engines["partial"] = func(prop string, payload json.RawMessage) ([]Violation, error) {
 		var p partPayload
@@ -441,6 +570,7 @@ func init() {
 			}
 			BFS(c, &PartialFamily{Nmax: nO, TR: 63, UndoBud: 1, Junk: true, Prop: "C09", Base: b}, 0)
 		}
+		partialMedium(c)
 		nB := pick(c, 5, 6)
 		c.Cov.Bound["B"] = fmt.Sprintf("Nmax=%d forward only (no undo), sets of size<=2", nB)
 		for _, tr := range trs {
